@@ -55,6 +55,9 @@ PLANS = {
                 thorough=dict(cfgs=["small-wrap", "small-nosse-wrap", "small-ts-wrap-strict"], shards=16, cases=6000, scale=100, maxsize=100)),
     "C17": dict(level="exploration", quick=dict(cfgs=SEM, shards=16, cases=1500, scale=400, maxsize=100),
                 thorough=dict(cfgs=SEM + ["host"], shards=16, cases=20000, scale=1000, maxsize=100)),
+    "C18": dict(level="exploration",
+                quick=dict(cfgs=["small-strict", "small-nosse-strict"], shards=16, cases=700, scale=300, strict=True, san_to_stderr=True),
+                thorough=dict(cfgs=["small-strict", "small-nosse-strict"], shards=16, cases=8000, scale=600, strict=True, san_to_stderr=True)),
     "C19": dict(level="exploration", quick=dict(cfgs=SEM, shards=16, cases=300, scale=300, maxsize=100),
                 thorough=dict(cfgs=SEM + ["host", "host-nosse"], shards=16, cases=3000, scale=600, maxsize=100)),
 }
